@@ -281,6 +281,16 @@ class FakeOs:
         return getattr(self._real, k)
 
 
+def reset_cookie_jar():
+    """the process-wide cookie jar of the handshake module starts empty (the engine also puts module-level state back before
+    every path; this is for harnesses that connect several times within one path)"""
+    import websocket._handshake as HS
+    jar = getattr(HS, "CookieJar", None)
+    store = getattr(jar, "jar", None)
+    if isinstance(store, dict):
+        store.clear()
+
+
 def quiet_logging():
     import logging
     lg = logging.getLogger("websocket")
